@@ -502,7 +502,7 @@ const ODD: [&str; 9] = ["", " ", "\u{a0}", "\t ", "\u{2003}\u{3000}", "\u{200b}"
 #[derive(Clone)]
 struct Known { key: String, q: PhysicalQuantity, unit: usize }
 
-struct Gen { rng: Rng, known: Vec<Known>, next_unit: usize, fresh_i: usize, malformed: bool }
+struct Gen { rng: Rng, known: Vec<Known>, next_unit: usize, fresh_i: usize, malformed: bool, bad: u32, has_si: bool }
 
 fn arcs(v: &[String]) -> Vec<Arc<str>> { v.iter().map(|s| Arc::from(s.as_str())).collect() }
 
@@ -521,15 +521,21 @@ fn si_from(pre: [Vec<String>; 6], sym: Option<[Vec<String>; 6]>, with_pre: bool,
 
 impl Gen {
     fn prec(&mut self) -> Precedence { *self.rng.pick(&[Precedence::Before, Precedence::After, Precedence::Override]) }
+    /// a mistake is planted with probability `bad * weight / 1000`
+    fn oops(&mut self, weight: u32) -> bool { self.bad > 0 && self.rng.chance((self.bad * weight).min(1000), 1000) }
     fn fresh(&mut self) -> String {
-        if self.rng.chance(1, 40) { return self.rng.pick(&ODD).to_string(); }
-        if self.rng.chance(1, 3) { return self.rng.pick(&FRESH).to_string(); }
+        if self.oops(1) { return self.rng.pick(&ODD).to_string(); }
+        if self.oops(8) || self.rng.chance(1, 12) {
+            // a word that may already be in use (a plain collision or a collision with an SI form)
+            let w = self.rng.pick(&FRESH).to_string();
+            if self.bad > 0 || !self.known.iter().any(|k| k.key == w) { return w; }
+        }
         self.fresh_i += 1;
         format!("n{}", self.fresh_i)
     }
     /// a key for a new name list: fresh, or (planted collision) a key that already exists
     fn new_key(&mut self, collide: u32) -> String {
-        if !self.known.is_empty() && self.rng.chance(collide, 100) { return self.rng.pick(&self.known).key.clone(); }
+        if !self.known.is_empty() && self.oops(collide) { return self.rng.pick(&self.known).key.clone(); }
         self.fresh()
     }
     fn ratio(&mut self, base: f64) -> f64 {
@@ -542,15 +548,16 @@ impl Gen {
         let mut pre: [Vec<String>; 6] = Default::default();
         let mut sym: [Vec<String>; 6] = Default::default();
         for i in 0..6 {
-            let holes = if full { 30 } else { 2 };
-            if !self.rng.chance(1, holes) { pre[i].push(names[i].to_string()); }
-            if !self.rng.chance(1, holes) { sym[i].push(syms[i].to_string()); }
-            if self.rng.chance(1, 8) { pre[i].push(format!("{}-", &names[i][..2])); }
+            let hole = if full { self.oops(2) } else { self.rng.chance(1, 4) };
+            let hole2 = if full { self.oops(2) } else { self.rng.chance(1, 4) };
+            if !hole { pre[i].push(names[i].to_string()); }
+            if !hole2 { sym[i].push(syms[i].to_string()); }
+            if self.rng.chance(1, 8) { pre[i].push(["kil-", "hec-", "dca-", "dci-", "cen-", "mil-"][i].to_string()); }
             if self.rng.chance(1, 8) { sym[i].push(syms[i].to_uppercase()); }
-            if self.rng.chance(1, 60) { let k = self.fresh(); sym[i].push(k); }
+            if self.oops(1) { let k = self.fresh(); sym[i].push(k); }
         }
-        let with_pre = !self.rng.chance(1, if full { 25 } else { 4 });
-        let with_sym = !self.rng.chance(1, if full { 25 } else { 4 });
+        let with_pre = if full { !self.oops(3) } else { !self.rng.chance(1, 4) };
+        let with_sym = if full { !self.oops(3) } else { !self.rng.chance(1, 4) };
         let p = self.prec();
         si_from(pre, if with_sym { Some(sym) } else { None }, with_pre, p)
     }
@@ -565,7 +572,7 @@ impl Gen {
         })
     }
     fn some_known_key(&mut self, unknown: u32) -> String {
-        if self.known.is_empty() || self.rng.chance(unknown, 100) { return self.fresh(); }
+        if self.known.is_empty() || self.oops(unknown) { return self.fresh(); }
         self.rng.pick(&self.known).key.clone()
     }
     fn fractions(&mut self) -> Fractions {
@@ -574,11 +581,12 @@ impl Gen {
         if self.rng.chance(1, 2) { f.metric = Some(self.wrapper()); }
         if self.rng.chance(1, 2) { f.imperial = Some(self.wrapper()); }
         for q in PQS { if self.rng.chance(1, 4) { let w = self.wrapper(); f.quantity.insert(q, w); } }
-        for _ in 0..self.rng.below(4) { let k = self.some_known_key(4); let w = self.wrapper(); f.unit.insert(k, w); }
+        for _ in 0..self.rng.below(4) { let k = self.some_known_key(3); let w = self.wrapper(); f.unit.insert(k, w); }
         f
     }
     /// entries of one quantity group; registers their keys (and the SI forms) in `known`
-    fn entries(&mut self, pool: &Pool, n: usize, collide: u32, used: &mut Vec<usize>) -> Vec<UnitEntry> {
+    fn entries(&mut self, pool: &Pool, n: usize, used: &mut Vec<usize>) -> Vec<UnitEntry> {
+        let collide = 4;
         let mut out = vec![];
         for _ in 0..n {
             let free: Vec<usize> = (0..pool.names.len()).filter(|i| !used.contains(i)).collect();
@@ -590,12 +598,15 @@ impl Gen {
                 if self.rng.chance(1, 4) { symbols.push(format!("{}.", pool.symbols[i])); }
                 (names, symbols, pool.ratios[i])
             } else {
-                ((0..self.rng.below(3)).map(|_| self.new_key(collide)).collect(), (0..self.rng.below(3)).map(|_| self.new_key(collide)).collect(), 1.0)
+                let (mut nn, ns) = (self.rng.below(3), self.rng.below(3));
+                if nn + ns == 0 && !self.oops(10) { nn = 1; }
+                ((0..nn).map(|_| self.new_key(collide)).collect(), (0..ns).map(|_| self.new_key(collide)).collect(), 1.0)
             };
             let mut aliases: Vec<String> = vec![];
             if self.rng.chance(1, 4) { let k = self.new_key(collide); aliases.push(k); }
-            if self.rng.chance(collide, 100) { let k = self.new_key(100); match self.rng.below(3) { 0 => names.push(k), 1 => symbols.push(k), _ => aliases.push(k) } }
-            let expand_si = self.rng.chance(1, 4);
+            if self.oops(collide) { let k = self.new_key(1000); match self.rng.below(3) { 0 => names.push(k), 1 => symbols.push(k), _ => aliases.push(k) } }
+            // SI expansion of units with short symbols collides with other units (m+in = min, d+a…) — keep it on the metric base names mostly
+            let expand_si = (self.has_si || self.oops(10)) && self.rng.chance(1, 4) && (self.oops(20) || names.first().map_or(false, |n| ["liter", "gram", "meter", "kelvin", "second"].contains(&n.as_str())) || self.rng.chance(1, 8));
             let ratio = self.ratio(base);
             let difference = if pool.q == PhysicalQuantity::Temperature || self.rng.chance(1, 12) {
                 if self.malformed && self.rng.chance(1, 6) { f64::NAN } else { *self.rng.pick(&[0.0, 273.15, 459.67, -10.0]) }
@@ -629,7 +640,8 @@ impl Gen {
         for _ in 0..n {
             if !own.is_empty() { v.push(self.rng.pick(&own).key.clone()); }
         }
-        if self.rng.chance(bad, 100) {
+        let _ = bad;
+        if self.oops(12) {
             match self.rng.below(5) {
                 0 => v.clear(),
                 1 => { let k = self.fresh(); v.push(k) }
@@ -647,11 +659,19 @@ impl Gen {
         let mut units = HashMap::new();
         let n = 1 + self.rng.below(4);
         for _ in 0..n {
-            let k = self.some_known_key(bad / 2);
+            let _ = bad;
+            let mut k = self.some_known_key(6);
+            // two keys of one unit in a block are a DuplicateExtendUnit error: avoid unless a mistake is wanted
+            for _ in 0..4 {
+                let unit_of = |key: &String| self.known.iter().find(|x| &x.key == key).map(|x| x.unit);
+                let clash = match unit_of(&k) { Some(u) => units.keys().any(|o: &String| unit_of(o) == Some(u)), None => false };
+                if !clash || self.oops(20) { break; }
+                k = self.some_known_key(6);
+            }
             let on_expanded = self.known.iter().any(|x| x.key == k && x.unit >= 100_000);
-            let base_fields = if on_expanded { self.rng.chance(bad, 100) } else { true };
+            let base_fields = if on_expanded { self.oops(15) } else { true };
             let mut e = ExtendUnitEntry::default();
-            let lists = |g: &mut Gen| -> Vec<Arc<str>> { let n = 1 + g.rng.below(2); let v: Vec<String> = (0..n).map(|_| g.new_key(bad / 2)).collect(); arcs(&v) };
+            let lists = |g: &mut Gen| -> Vec<Arc<str>> { let n = 1 + g.rng.below(2); let v: Vec<String> = (0..n).map(|_| g.new_key(5)).collect(); arcs(&v) };
             if self.rng.chance(2, 3) { e.aliases = Some(lists(self)); }
             if base_fields {
                 if self.rng.chance(1, 2) { e.names = Some(lists(self)); }
@@ -659,8 +679,8 @@ impl Gen {
                 if self.rng.chance(1, 5) { e.ratio = Some(self.ratio(2.0)); }
                 if self.rng.chance(1, 8) { e.difference = Some(1.5); }
             }
-            if self.rng.chance(1, 30) { e.names = Some(vec![]); }
-            if self.rng.chance(1, 30) { e.symbols = Some(vec![]); }
+            if base_fields && self.rng.chance(1, 30) { e.names = Some(vec![]); }
+            if base_fields && self.rng.chance(1, 30) { e.symbols = Some(vec![]); }
             units.insert(k, e);
         }
         Extend { precedence: self.prec(), units }
@@ -668,24 +688,26 @@ impl Gen {
 
     fn base_file(&mut self, bad: u32) -> UnitsFile {
         let mut quantity = vec![];
+        let si = if !self.oops(5) { Some(self.si(true)) } else { None };
+        self.has_si = si.as_ref().map_or(false, |s| s.prefixes.is_some() && s.symbol_prefixes.is_some());
         let order: Vec<usize> = { let mut o: Vec<usize> = (0..5).collect(); if self.rng.chance(1, 3) { self.rng.shuffle(&mut o); } o };
         let mut groups: Vec<(usize, Vec<UnitEntry>)> = vec![];
         for qi in order {
             let pool = &POOLS[qi];
             let n = 1 + self.rng.below(3);
             let mut used = vec![];
-            let es = self.entries(pool, n, bad / 3, &mut used);
+            let es = self.entries(pool, n, &mut used);
             groups.push((qi, es));
         }
         for (qi, es) in groups {
             let q = POOLS[qi].q;
-            let best = if self.rng.chance(bad, 400) { None } else { Some(self.best_decl(q, bad)) };
+            let best = if self.oops(3) { None } else { Some(self.best_decl(q, bad)) };
             let units = Some(self.units_decl(es));
             quantity.push(QuantityGroup { quantity: q, best, units });
         }
         UnitsFile {
             default_system: if self.rng.chance(1, 2) { Some(*self.rng.pick(&[System::Metric, System::Imperial])) } else { None },
-            si: if self.rng.chance(9, 10) { Some(self.si(true)) } else { None },
+            si,
             fractions: if self.rng.chance(1, 2) { Some(self.fractions()) } else { None },
             extend: if self.rng.chance(1, 8) { Some(self.extend(bad)) } else { None },
             quantity,
@@ -700,7 +722,7 @@ impl Gen {
                 let n = 1 + self.rng.below(2);
                 // the pool names are mostly taken by the base file: use free ones or fresh names
                 let mut used: Vec<usize> = (0..pool.names.len()).filter(|i| self.known.iter().any(|k| k.key == pool.names[*i])).collect();
-                Some(self.entries(pool, n, bad / 3, &mut used))
+                Some(self.entries(pool, n, &mut used))
             } else { None };
             let best = if self.rng.chance(1, 2) { Some(self.best_decl(pool.q, bad)) } else { None };
             let units = match es { Some(e) => Some(self.units_decl(e)), None => if self.rng.chance(1, 10) { Some(Units::Unified(vec![])) } else { None } };
@@ -708,7 +730,7 @@ impl Gen {
         }
         UnitsFile {
             default_system: if self.rng.chance(1, 3) { Some(*self.rng.pick(&[System::Metric, System::Imperial])) } else { None },
-            si: if self.rng.chance(1, 3) { Some(self.si(false)) } else { None },
+            si: if self.rng.chance(1, 6) { Some(self.si(false)) } else { None },
             fractions: if self.rng.chance(1, 3) { Some(self.fractions()) } else { None },
             extend: if self.rng.chance(3, 4) { Some(self.extend(bad)) } else { None },
             quantity,
@@ -716,14 +738,15 @@ impl Gen {
     }
 }
 
-fn gen_stack(rng: &mut Rng, malformed: bool) -> Vec<UnitsFile> {
-    let mut g = Gen { rng: rng.fork(16), known: vec![], next_unit: 0, fresh_i: 0, malformed };
+fn gen_stack(rng: &mut Rng, malformed: bool) -> (Vec<UnitsFile>, u32) {
     // rate of planted mistakes, chosen per stack
-    let bad = *g.rng.pick(&[0u32, 0, 4, 8, 16, 40]);
+    let mut r = rng.fork(16);
+    let bad = *r.pick(&[0u32, 0, 0, 0, 1, 2, 4, 8, 20]);
+    let mut g = Gen { rng: r, known: vec![], next_unit: 0, fresh_i: 0, malformed, bad, has_si: false };
     let n = 1 + g.rng.below(3);
     let mut files = vec![g.base_file(bad)];
     for _ in 1..n { let f = g.layer_file(bad); files.push(f); }
-    files
+    (files, bad)
 }
 
 fn read_toml(path: &std::path::Path) -> Result<Vec<UnitsFile>, String> {
@@ -812,7 +835,10 @@ non-trivial = the build returned a converter (or panicked); distinct = distinct 
     let n = if ctx.thorough { 400_000 } else { 6_000 };
     for i in 0..n {
         let malformed = i % 10 == 9;
-        let stack = gen_stack(&mut rng, malformed);
+        let (stack, bad) = gen_stack(&mut rng, malformed);
+        let before = ctx.counters.clone();
         one_stack(ctx, stack, if malformed { "generated-malformed" } else { "generated" });
+        let what = ctx.counters.iter().find(|(k, v)| k.starts_with("result:") && before.get(*k).copied().unwrap_or(0) != **v).map(|(k, _)| k[7..].to_string()).unwrap_or_default();
+        ctx.count(&format!("mistake-rate:{bad:02}:{what}"));
     }
 }
